@@ -388,6 +388,97 @@ func genProf(r *rand.Rand) ([]Selector, string) {
 	return sels, "{" + strings.Join(parts, ", ") + "}"
 }
 
+// class "absent-multi" for profile selectors: several selectors on stored labels that accept "" (each must exclude on its
+// own), values drawn from the case's stored series
+func genProfAbsentMulti(r *rand.Rand, pdb []PSeries) string {
+	tl := map[string]string{}
+	var parts []string
+	if len(pdb) > 0 {
+		t := pdb[r.Intn(len(pdb))]
+		for _, kv := range t.Labels {
+			tl[kv[0]] = kv[1]
+		}
+		switch r.Intn(4) {
+		case 0:
+			parts = append(parts, "service_name="+quoteSel(r, t.Service))
+		case 1:
+			parts = append(parts, "__profile_type__=~"+quoteSel(r, ".*"))
+		}
+	}
+	k := 2 + r.Intn(2)
+	for j := 0; j < k; j++ {
+		p := profLabelPool[r.Intn(len(profLabelPool))]
+		v := p[1+r.Intn(len(p)-1)]
+		if own, ok := tl[p[0]]; ok && r.Intn(2) == 0 {
+			v = own
+		}
+		other := p[1+r.Intn(len(p)-1)]
+		var op, val string
+		switch r.Intn(8) {
+		case 0, 1, 2:
+			op, val = "!=", v
+		case 3:
+			op, val = "!~", regexp.QuoteMeta(v)
+		case 4:
+			op, val = "!~", regexp.QuoteMeta(v)+"|"+regexp.QuoteMeta(other)
+		case 5:
+			op, val = "=", ""
+		case 6:
+			op, val = "=~", regexp.QuoteMeta(v)+"|"
+		default:
+			op, val = []string{"!~", "=~"}[r.Intn(2)], ".+"
+			if op == "=~" {
+				val = ".*"
+			}
+		}
+		parts = append(parts, p[0]+op+quoteSel(r, val))
+	}
+	r.Shuffle(len(parts), func(i, j int) { parts[i], parts[j] = parts[j], parts[i] })
+	return "{" + strings.Join(parts, ", ") + "}"
+}
+
+var profPseudo = map[string]bool{"__name__": true, "__period_type__": true, "__period_unit__": true, "__sample_type__": true,
+	"__sample_unit__": true, "__profile_type__": true, "service_name": true}
+
+// measured for the evidence: a stored series inside the date bounds is rejected by some but not all of the (at least two)
+// selectors on stored labels that accept ""
+func profSomeNotAll(sels []Selector, c *Ctx, pdb []PSeries) bool {
+	var absent []*labels.Matcher
+	for _, s := range sels {
+		if profPseudo[s.Name] || !s.E {
+			continue
+		}
+		mt := map[string]labels.MatchType{"=": labels.MatchEqual, "!=": labels.MatchNotEqual, "=~": labels.MatchRegexp, "!~": labels.MatchNotRegexp}[s.Op]
+		if m, err := labels.NewMatcher(mt, s.Name, s.Val); err == nil {
+			absent = append(absent, m)
+		}
+	}
+	if len(absent) < 2 {
+		return false
+	}
+	for _, s := range pdb {
+		if s.Day < c.FromNs/86400000000000-1 || s.Day > c.ToNs/86400000000000 {
+			continue
+		}
+		rej := 0
+		for _, m := range absent {
+			v := ""
+			for _, kv := range s.Labels {
+				if kv[0] == m.Name {
+					v = kv[1]
+				}
+			}
+			if !m.Matches(v) {
+				rej++
+			}
+		}
+		if rej > 0 && rej < len(absent) {
+			return true
+		}
+	}
+	return false
+}
+
 var typeIDs = []string{"process_cpu:cpu:nanoseconds", "memory:alloc_objects:count", "memory:inuse_space:bytes", "goroutine:goroutine:count", "process_cpu", ""}
 var stus = [][][2]string{
 	{{"cpu", "nanoseconds"}, {"samples", "count"}},
@@ -577,6 +668,9 @@ func runProf(c *Case) {
 	c.Sels = sels
 	if c.PDB != nil {
 		c.Oracle = genProfOracle(sels, c.PDB)
+		if profSomeNotAll(sels, c.Ctx, c.PDB) {
+			addClass(c, "absent-some-not-all")
+		}
 	}
 	pc := mkPlannerCtx(c.Ctx)
 	c.Tables = tablesOf(pc)
@@ -682,6 +776,122 @@ func genDB(r *rand.Rand, h *Hints) *DB {
 	}
 	r.Shuffle(len(db.Samples), func(i, j int) { db.Samples[i], db.Samples[j] = db.Samples[j], db.Samples[i] })
 	return db
+}
+
+// ---------------------------------------------------------------- class "absent-multi"
+
+// matcher sets with SEVERAL matchers that accept the empty string (!=, !~, ="", =~"v|"), drawn from the label values of
+// the case's own database so that a stored series is rejected by some of them and accepted by the others: each such
+// matcher must exclude on its own (fingerprintsQuery plans one exclusion sub-query per matcher; a single sub-query for
+// all of them would only exclude the series rejected by every one of them at once)
+func genAbsentMulti(r *rand.Rand, db *DB) []Matcher {
+	var ms []Matcher
+	if len(db.Series) == 0 {
+		return []Matcher{{Name: "__name__", Op: "=", Val: "up"}, {Name: "job", Op: "!=", Val: "api"}, {Name: "env", Op: "!=", Val: "prod"}}
+	}
+	t := db.Series[r.Intn(len(db.Series))]
+	tl := map[string]string{}
+	for _, kv := range t.Labels {
+		tl[kv[0]] = kv[1]
+	}
+	switch r.Intn(4) {
+	case 0:
+		ms = append(ms, Matcher{Name: "__name__", Op: "=~", Val: ".+"})
+	case 1:
+		ms = append(ms, Matcher{Name: "__name__", Op: "=~", Val: tl["__name__"] + "|cpu"})
+	default:
+		ms = append(ms, Matcher{Name: "__name__", Op: "=", Val: tl["__name__"]})
+	}
+	k := 2 + r.Intn(2)
+	for j := 0; j < k; j++ {
+		p := seriesLabelPool[1+r.Intn(len(seriesLabelPool)-1)]
+		v := p[1+r.Intn(len(p)-1)]
+		if own, ok := tl[p[0]]; ok && r.Intn(2) == 0 {
+			v = own
+		}
+		other := p[1+r.Intn(len(p)-1)]
+		m := Matcher{Name: p[0]}
+		switch r.Intn(8) {
+		case 0, 1, 2:
+			m.Op, m.Val = "!=", v
+		case 3:
+			m.Op, m.Val = "!~", regexp.QuoteMeta(v)
+		case 4:
+			m.Op, m.Val = "!~", regexp.QuoteMeta(v)+"|"+regexp.QuoteMeta(other)
+		case 5:
+			m.Op, m.Val = "=", ""
+		case 6:
+			m.Op, m.Val = "=~", regexp.QuoteMeta(v)+"|"
+		default:
+			m.Op, m.Val = []string{"!~", "=~"}[r.Intn(2)], []string{".+", ".*"}[r.Intn(2)]
+			if m.Op == "=~" {
+				m.Val = ".*"
+			}
+		}
+		ms = append(ms, m)
+	}
+	if r.Intn(2) == 0 { // the selective matcher need not come first
+		i := r.Intn(len(ms))
+		ms[0], ms[i] = ms[i], ms[0]
+	}
+	return ms
+}
+
+// measured for the evidence: the database holds a metric series with a metric sample in the window that satisfies every
+// matcher rejecting "" and is rejected by some but not all of the (at least two) matchers accepting ""
+func someNotAll(pms []*labels.Matcher, h *Hints, db *DB) bool {
+	var absent, sel []*labels.Matcher
+	for _, m := range pms {
+		if m.Matches("") {
+			absent = append(absent, m)
+		} else {
+			sel = append(sel, m)
+		}
+	}
+	if len(absent) < 2 || len(sel) == 0 || db == nil {
+		return false
+	}
+	for _, s := range db.Series {
+		if s.Type != 2 && s.Type != 0 {
+			continue
+		}
+		val := func(n string) string {
+			for _, kv := range s.Labels {
+				if kv[0] == n {
+					return kv[1]
+				}
+			}
+			return ""
+		}
+		ok := true
+		for _, m := range sel {
+			ok = ok && m.Matches(val(m.Name))
+		}
+		rej := 0
+		for _, m := range absent {
+			if !m.Matches(val(m.Name)) {
+				rej++
+			}
+		}
+		if !ok || rej == 0 || rej == len(absent) {
+			continue
+		}
+		for _, x := range db.Samples {
+			if x.Fp == s.Fp && (x.Type == 2 || x.Type == 0) && x.TsNs/1000000 >= h.Start && x.TsNs/1000000 <= h.End {
+				return true
+			}
+		}
+	}
+	return false
+}
+
+func addClass(c *Case, cl string) {
+	for _, x := range c.Class {
+		if x == cl {
+			return
+		}
+	}
+	c.Class = append(c.Class, cl)
 }
 
 func genOracle(ms []Matcher, pms []*labels.Matcher, db *DB) []ReEntry {
@@ -799,6 +1009,9 @@ func runQuerier(c *Case) {
 	}
 	if c.DB != nil {
 		c.Oracle = genOracle(c.Ms, pms, c.DB)
+		if someNotAll(pms, c.Hints, c.DB) {
+			addClass(c, "absent-some-not-all")
+		}
 	}
 	sc := &script{}
 	for _, r := range c.Rows {
@@ -1085,6 +1298,10 @@ func main() {
 			_, c.Query = genProf(r)
 			c.Class = []string{"prof"}
 			c.PDB = genPDB(r, c.Ctx)
+			if rs := hx.Rand(f.Seed*1299709 + int64(i)); rs.Intn(4) == 0 { // own stream
+				c.Query = genProfAbsentMulti(rs, c.PDB)
+				c.Class = append(c.Class, "absent-multi")
+			}
 			if rs := hx.Rand(f.Seed*7919 + int64(i)); rs.Intn(3) == 0 { // a Series request with two or three matchers
 				c.Members = []Member{{Query: c.Query}}
 				for k := 1 + rs.Intn(2); k > 0; k-- {
@@ -1102,6 +1319,10 @@ func main() {
 			c.Sorted = r.Intn(2) == 0
 			genRows(r, &c)
 			c.DB = genDB(r, h)
+			if rs := hx.Rand(f.Seed*104729 + int64(i)); rs.Intn(4) == 0 { // own stream: the other cases of the seed stay as they were
+				c.Ms = genAbsentMulti(rs, c.DB)
+				c.Class = append(c.Class, "absent-multi")
+			}
 		}
 		runCase(&c)
 		out.Put(c)
